@@ -1176,6 +1176,98 @@ class Engine(Executor):
                 out.extend(self.loop_by_invariant(stmt, it, s))
         return out
 
+    def st_While(self, stmt, st):
+        """`while cond: body` by invariant: at an arbitrary iteration the variables the body assigns are arbitrary values
+        satisfying the written invariants (and the type-stability candidates that survive); the condition holds, the body
+        runs, the invariants are re-proved.  After the loop: the invariants and the NEGATED condition.  Termination is the
+        stated `decreases` clause (not machine-checked; listed as an assumption) -- without one the function is undecided."""
+        if stmt.orelse:
+            raise Unsupported("while/else", stmt)
+        key = self.loop_key(stmt)
+        spec = self.contract.loops.get(key, {}) if self.cur_fi is self.fi else {}
+        if self.cur_fi is self.fi:
+            self.loops_seen.add(key)
+        if not spec.get("decreases"):
+            raise Unsupported("while loop without a decreases clause", stmt)
+        self.assumptions.add("termination of `%s` in %s: decreases %s (stated, not machine-checked)" % (key, self.cur_fi.name, spec["decreases"]))
+        invs = list(spec.get("invariant", []))
+        names, attrs = assigned_names(stmt.body)
+        self.loop_count += 1
+        tag = "W%d" % self.loop_count
+        for inv in invs:
+            for (s2, b) in self.eval_clause(inv, st.fork(), st.env, stmt):
+                self.prove(s2, b, "K4", stmt, "invariant holds at loop entry: %s" % inv, clause="init:" + inv)
+        results = []
+        dropped = set()
+        havoc_heap = False               # set when the body is seen to write the heap: the loop is then redone
+        while True:
+            mark_o, mark_p = len(self.obligations), len(self.pending)
+            body = st.fork()
+            if havoc_heap:
+                body.heap_havoc(tag)
+            heap_written = False
+            cands = [(n, mk) for (n, mk) in self.havoc(body, names, attrs, tag) if n not in dropped]
+            bad = set()
+            for (n, mk) in cands:
+                body.assume(mk(body.env[n].t))
+                ev = st.env.get(n)
+                if isinstance(ev, Z) and self.solver.check(st.pc + [z3.Not(mk(ev.t))], timeout_ms=2000)[0] != "unsat":
+                    bad.add(n)
+            states = [body]
+            for inv in invs:
+                states = [s2 for b0 in states for (s2, b) in self.eval_clause(inv, b0, b0.env, stmt) if not s2.assume(b)]
+            iter_results = []
+            for b0 in states:
+                for (s1, c) in self.ev(stmt.test, b0):
+                    if is_exc(c):
+                        iter_results.append((s1, ("raise", c)))
+                        continue
+                    t, _f = self.branch(s1, self.truth(c, s1, stmt), stmt)
+                    if t is None:
+                        continue
+                    sig0 = t.heap_sig()
+                    for (s2, oc) in self.exec_block(stmt.body, t):
+                        if s2.heap_sig() != sig0:
+                            heap_written = True
+                        if oc is None or oc[0] == "continue":
+                            for (n, mk) in cands:
+                                v = s2.env.get(n)
+                                if not (isinstance(v, Z) and self.solver.check(s2.pc + [z3.Not(mk(v.t))], timeout_ms=2000)[0] == "unsat"):
+                                    bad.add(n)
+                            for inv in invs:
+                                for (s3, b) in self.eval_clause(inv, s2.fork(), s2.env, stmt):
+                                    self.prove(s3, b, "K4", stmt, "invariant preserved by the loop body: %s" % inv, clause="step:" + inv)
+                        elif oc[0] == "break":
+                            iter_results.append((s2, None))
+                        else:
+                            iter_results.append((s2, oc))
+            if bad - dropped or (heap_written and not havoc_heap):
+                dropped |= bad
+                havoc_heap = havoc_heap or heap_written
+                del self.obligations[mark_o:]
+                del self.pending[mark_p:]
+                continue
+            results.extend(iter_results)
+            break
+        fin = st.fork()
+        if havoc_heap:
+            fin.heap_havoc(tag + "x")
+        for (n, mk) in self.havoc(fin, names, attrs, tag + "x"):
+            if n not in dropped and isinstance(fin.env.get(n), Z):
+                fin.assume(mk(fin.env[n].t))
+        fins = [fin]
+        for inv in invs:
+            fins = [s2 for f0 in fins for (s2, b) in self.eval_clause(inv, f0, f0.env, stmt) if not s2.assume(b)]
+        for f0 in fins:
+            for (s1, c) in self.ev(stmt.test, f0):
+                if is_exc(c):
+                    results.append((s1, ("raise", c)))
+                    continue
+                _t, f = self.branch(s1, self.truth(c, s1, stmt), stmt)
+                if f is not None:
+                    results.append((f, None))
+        return results
+
     def ev_iter(self, e, st):
         """Evaluate a loop iterable; enumerate()/range()/reversed()/.items() become descriptors."""
         if isinstance(e, ast.Call) and isinstance(e.func, ast.Name) and e.func.id in ("enumerate", "range", "reversed") \
